@@ -150,11 +150,11 @@ type LockResult struct {
 }
 
 type lockAnalysis struct {
-	spec    *LockSpec
-	funcs   []*ssa.Function
-	in      map[*ssa.Function][]lockset // lockset at block entry
-	callers map[*ssa.Function][]ssa.CallInstruction
-	closure map[*ssa.Function][]*ssa.MakeClosure
+	spec      *LockSpec
+	funcs     []*ssa.Function
+	in        map[*ssa.Function][]lockset // lockset at block entry
+	callers   map[*ssa.Function][]ssa.CallInstruction
+	closure   map[*ssa.Function][]*ssa.MakeClosure
 	addrTaken map[*ssa.Function]bool
 	invokes   map[string][]ssa.CallInstruction
 }
